@@ -190,6 +190,8 @@ pub fn leg_faults(thorough: bool) -> Value {
                         match target {
                             Op::Gcv(..) => tags.push("C08"),
                             Op::AddVersion(..) => tags.push("C02"),
+                            Op::GetSnap(..) => tags.push("C11"),
+                            Op::AddSnap(..) => tags.push("C10"),
                             _ => {}
                         }
                     }
